@@ -56,6 +56,17 @@ func quiet32(x uint64) uint64 {
 	return x
 }
 
+// quietWords applies quiet32 to every aligned 32-bit word (used where a wrong-kinded list may be
+// read as a Float32 list).
+func quietWords(b []byte) []byte {
+	for i := 0; i+4 <= len(b); i += 4 {
+		w := uint64(b[i]) | uint64(b[i+1])<<8 | uint64(b[i+2])<<16 | uint64(b[i+3])<<24
+		w = quiet32(w)
+		b[i], b[i+1], b[i+2], b[i+3] = byte(w), byte(w>>8), byte(w>>16), byte(w>>24)
+	}
+	return b
+}
+
 func (g *gen) pickWhich(mn *mnode) uint16 {
 	var mapped, all []uint16
 	for _, f := range mn.fields {
@@ -205,6 +216,9 @@ func (g *gen) randPtr(depth int) *aPtr {
 			if p.w > 0 {
 				x = g.scalar(p.w)
 			}
+			if p.w == 32 {
+				x = quiet32(x)
+			}
 			p.prims = append(p.prims, x)
 		}
 		return p
@@ -221,7 +235,7 @@ func (g *gen) randPtr(depth int) *aPtr {
 		p := &aPtr{kind: 'C'}
 		dw := g.r.Intn(3)
 		for i := g.r.Intn(3); i > 0; i-- {
-			p.structs = append(p.structs, &aStruct{data: g.dataBytes(dw * 8)})
+			p.structs = append(p.structs, &aStruct{data: quietWords(g.dataBytes(dw * 8))})
 		}
 		return p
 	default:
@@ -312,6 +326,15 @@ func (g *gen) fillNode(mn *mnode, s *aStruct, depth int) {
 				g.fillNode(f.group, s, depth)
 			}
 			continue
+		}
+		if f.typ.kind == 'i' && f.typ.f32 && int(f.off)*4+4 <= len(s.data) {
+			// keep the Float32 value (data XOR default) a non-signalling NaN, see quiet32
+			var d uint64
+			fmt.Sscanf(f.dflt, "z %x", &d)
+			b := s.data[f.off*4:]
+			w := uint64(b[0]) | uint64(b[1])<<8 | uint64(b[2])<<16 | uint64(b[3])<<24
+			w = quiet32(w^d) ^ d
+			b[0], b[1], b[2], b[3] = byte(w), byte(w>>8), byte(w>>16), byte(w>>24)
 		}
 		switch f.typ.kind {
 		case 'v', 'b', 'i':
